@@ -137,7 +137,15 @@ pub fn run(tier: &str, seed: u64, replay: Option<String>) -> i32 {
     } else if thorough {
         diskrun::stratified(all, per_cell_thorough, &mut rng)
     } else {
-        diskrun::stratified(all, 3, &mut rng)
+        // the side files are small and cheap: 12 per cell (3 per cell prefers the smallest
+        // project, which has no interior walls and no systems)
+        let (side, main): (Vec<DJob>, Vec<DJob>) = all.into_iter().partition(|j| {
+            let k = crate::engines::disk::kind_of(&j.file);
+            k == FileKind::Kyg || k == FileKind::Tbl
+        });
+        let mut v = diskrun::stratified(main, 3, &mut rng);
+        v.extend(diskrun::stratified(side, 12, &mut rng));
+        v
     };
     let enumerated_completely = selected.len() == n_all;
     // side files also end to end (damaged file next to its intact project)
@@ -156,7 +164,7 @@ pub fn run(tier: &str, seed: u64, replay: Option<String>) -> i32 {
         .collect();
     if !thorough {
         rng.shuffle(&mut e2e_jobs);
-        e2e_jobs.truncate(600);
+        e2e_jobs.truncate(1500);
     }
     jobs.extend(selected);
     let n_l1 = jobs.len();
